@@ -2,13 +2,30 @@ package main
 
 import (
 	"fmt"
+	"strings"
+	"time"
 
 	"github.com/ajitpratap0/GoSQLX/pkg/gosqlx"
 )
 
 func main() {
-	for _, s := range []string{"", " ", "-- c", ";"} {
-		a, err := gosqlx.Parse(s)
-		fmt.Printf("%q -> %v err=%v valid=%v\n", s, a != nil, err, gosqlx.Validate(s))
+	for _, pre := range []string{"x IN (SELECT ", "(SELECT ", "EXISTS (SELECT ", "x = ANY (SELECT ", "x IN ("} {
+		for _, n := range []int{10, 14, 18, 22, 50, 101, 400} {
+			s := "SELECT " + strings.Repeat(pre, n) + "1" + strings.Repeat(")", n)
+			t0 := time.Now()
+			_, err := gosqlx.Parse(s)
+			d := time.Since(t0)
+			e := "ok"
+			if err != nil {
+				e = err.Error()
+				if len(e) > 50 {
+					e = e[:50]
+				}
+			}
+			fmt.Printf("%-18s n=%4d %10v %s\n", pre, n, d.Round(time.Microsecond), strings.ReplaceAll(e, "\n", " "))
+			if d > 5*time.Second {
+				break
+			}
+		}
 	}
 }
